@@ -27,6 +27,7 @@ type evalEnv struct {
 	vars map[string]ev
 	phis map[*ssa.Phi]Value // loop invariants: phi overrides
 	qn   *int
+	point ssa.Instruction // program point (at-eval clauses): names resolve to the value in use here
 }
 
 func (en *evalEnv) with(vars map[string]ev) *evalEnv {
@@ -97,7 +98,37 @@ func (en *evalEnv) lookupIdent(name string) (ev, bool) {
 	if v, ok := en.vars[name]; ok {
 		return v, true
 	}
+	if strings.HasPrefix(name, "$") {
+		if t, ok := en.st.heap["L"+name]; ok && t != nil {
+			return ev{t, nil}, true
+		}
+	}
 	e := en.e
+	if en.point != nil {
+		// the most recent reference to this name before the program point, searching back through
+		// the block and its unique predecessors
+		b := en.point.Block()
+		idx := len(b.Instrs)
+		for i, in := range b.Instrs {
+			if in == en.point {
+				idx = i
+			}
+		}
+		for hops := 0; b != nil && hops < 6; hops++ {
+			for i := idx - 1; i >= 0; i-- {
+				if dr, ok := b.Instrs[i].(*ssa.DebugRef); ok && !dr.IsAddr {
+					if id, ok := dr.Expr.(*ast.Ident); ok && id.Name == name {
+						return ev{e.val(en.fr, dr.X), dr.X.Type()}, true
+					}
+				}
+			}
+			if len(b.Preds) != 1 {
+				break
+			}
+			b = b.Preds[0]
+			idx = len(b.Instrs)
+		}
+	}
 	// loop phi by source name
 	if en.phis != nil {
 		for phi, v := range en.phis {
@@ -311,6 +342,9 @@ func (en *evalEnv) eval(x Expr) ev {
 		base := en.eval(x.X)
 		i := en.intTerm(x.I)
 		if base.t == nil {
+			if bt, ok := base.v.(*Term); ok && strings.HasPrefix(bt.Sort, "(Array Int ") {
+				return ev{Select(bt, i), nil}
+			}
 			en.fail("index of untyped value")
 		}
 		switch u := base.t.Underlying().(type) {
@@ -642,7 +676,30 @@ func (e *Exec) callByContract(fr *Frame, st *State, x *ssa.Call, callee *ssa.Fun
 		e.oblige(st, "pre", callee.Name()+":"+clauseName(cl, i), g, e.posOf(x))
 	}
 	e.argsEscape(fr, st, &x.Call)
-	e.havoc(st, e.P.ModSetOf(callee))
+	if ct.Options["trace"] || ct.Options["eval-once"] || ct.Options["forward-exits"] || ct.Options["forward-body-exits"] {
+		// the callee evaluates Lisp forms: arbitrary effects on the heap, and it extends the ghost trace
+		e.newEpoch(st)
+		if e.ghostOn {
+			var gks []string
+			for k := range st.heap {
+				if strings.HasPrefix(k, "L$") {
+					gks = append(gks, k)
+				}
+			}
+			sort.Strings(gks)
+			for _, k := range gks {
+				st.heap[k] = e.fresh(st.heap[k].Sort, "g")
+			}
+			// the trace only grows; earlier events are unchanged
+			e.assume(st.pc, Le(pre.heap[gN], st.heap[gN]))
+			for _, k := range []string{gEk, gEarr, gEslot, gEidx, gEobj, gEscope, gEres} {
+				e.emit("(assert (=> %s (forall ((k!t Int)) (! (=> (< k!t %s) (= (select %s k!t) (select %s k!t))) :pattern ((select %s k!t))))))",
+					st.pc.S, pre.heap[gN].S, st.heap[k].S, pre.heap[k].S, st.heap[k].S)
+			}
+		}
+	} else {
+		e.havoc(st, e.P.ModSetOf(callee))
+	}
 	e.bumpAlloc(st)
 	res := e.callResult(st, x)
 	var rl []Value
@@ -660,7 +717,10 @@ func (e *Exec) callByContract(fr *Frame, st *State, x *ssa.Call, callee *ssa.Fun
 }
 
 func (e *Exec) contractLoopInvs(fr *Frame, h *ssa.BasicBlock, li *loopInfo, phis []*ssa.Phi, c *Contract, add func(string, bool, func(map[*ssa.Phi]Value, *State) *Term)) {
-	if c == nil || fr.parent != nil {
+	if c == nil {
+		return
+	}
+	if fr.parent != nil && !(fr.fn.Parent() == e.Root && strings.HasSuffix(fr.path, "defer>")) {
 		return
 	}
 	var lks []string
@@ -670,7 +730,7 @@ func (e *Exec) contractLoopInvs(fr *Frame, h *ssa.BasicBlock, li *loopInfo, phis
 	sort.Strings(lks)
 	for _, key := range lks {
 		cls := c.Loops[key]
-		if !strings.Contains(li.key, key) {
+		if !strings.Contains(li.key, key) && !strings.Contains(loopKeyNamed(h), key) {
 			continue
 		}
 		e.usedLoopKeys[key] = true
